@@ -32,7 +32,7 @@ var (
 	c05Prim    string
 )
 
-//verif:stub crypto/rsa.VerifyPKCS1v15 files=signature.go
+//verif:stub crypto/rsa.VerifyPKCS1v15 files=*
 func c05RSAVerify(pub *rsa.PublicKey, hash crypto.Hash, hashed []byte, sig []byte) error {
 	c05Calls++
 	c05Prim, c05Key, c05HashID, c05Hash, c05Sig = "rsa", pub, hash, hashed, sig
@@ -42,14 +42,14 @@ func c05RSAVerify(pub *rsa.PublicKey, hash crypto.Hash, hashed []byte, sig []byt
 	return rsa.ErrVerification
 }
 
-//verif:stub crypto/dsa.Verify files=signature.go
+//verif:stub crypto/dsa.Verify files=*
 func c05DSAVerify(pub *dsa.PublicKey, hash []byte, r, s *big.Int) bool {
 	c05Calls++
 	c05Prim, c05Key, c05Hash, c05R, c05S = "dsa", pub, hash, r, s
 	return c05Verdict
 }
 
-//verif:stub crypto/ecdsa.Verify files=signature.go
+//verif:stub crypto/ecdsa.Verify files=*
 func c05ECDSAVerify(pub *ecdsa.PublicKey, hash []byte, r, s *big.Int) bool {
 	c05Calls++
 	c05Prim, c05Key, c05Hash, c05R, c05S = "ecdsa", pub, hash, r, s
